@@ -9,6 +9,7 @@ import (
 	"bytes"
 	"crypto/sha256"
 	"encoding/json"
+	"flag"
 	"fmt"
 	"os"
 	"path/filepath"
@@ -19,6 +20,7 @@ import (
 
 	"verif/fsched"
 	"verif/kit"
+	"verif/pmode"
 	"verif/sched"
 	"verif/virt/vos"
 	"verif/virt/vsync"
@@ -50,12 +52,12 @@ func (o op) String() string {
 }
 
 type scenario struct {
-	Name      string     `json:"name"`
+	Name      string      `json:"name"`
 	Pre       [][2]string `json:"pre"` // entries stored before the users start
-	Threads   [][]op     `json:"threads"`
-	SameCache []int      `json:"same_cache"` // thread indexes sharing one *Cache (goroutines of one process)
-	MustHit   []string   `json:"must_hit"`   // ids whose lookups must never miss (pre-stored, only re-stored identically)
-	Bound     int        `json:"bound"`
+	Threads   [][]op      `json:"threads"`
+	SameCache []int       `json:"same_cache"` // thread indexes sharing one *Cache (goroutines of one process)
+	MustHit   []string    `json:"must_hit"`   // ids whose lookups must never miss (pre-stored, only re-stored identically)
+	Bound     int         `json:"bound"`
 }
 
 func (s scenario) String() string {
@@ -97,13 +99,81 @@ func (in *instance) fail(format string, args ...any) {
 	}
 }
 
+const pmodeTag = " [one process per user]"
+
+func (s scenario) pmode() bool { return strings.HasSuffix(s.Name, pmodeTag) }
+
+type pchildSpec struct {
+	Dir  string `json:"dir"`
+	Prog []op   `json:"prog"`
+}
+
+type lookupMsg struct {
+	Op       op     `json:"op"`
+	Data     []byte `json:"data"`
+	File     string `json:"file"`
+	Out      []byte `json:"out"` // OutputID
+	Size     int64  `json:"size"`
+	Err      string `json:"err"`
+	NotFound bool   `json:"not_found"`
+}
+
+// pchildMain: one cache user as its own OS process.
+func pchildMain(spec pchildSpec) {
+	tmpl, err := cache.Open(spec.Dir) // before the hooks are installed: not part of the schedule
+	if err != nil {
+		os.Exit(9)
+	}
+	r := pmode.Child()
+	for _, o := range spec.Prog {
+		switch o.Kind {
+		case "put":
+			js, _ := json.Marshal(o)
+			r.Send("I %s", js)
+			_, _, err := tmpl.Put(ids[o.ID], bytes.NewReader(contents[o.Content]))
+			m := lookupMsg{Op: o}
+			if err != nil {
+				m.Err = err.Error()
+			}
+			js, _ = json.Marshal(m)
+			r.Send("W %s", js)
+		case "getbytes":
+			data, ent, err := tmpl.GetBytes(ids[o.ID])
+			m := lookupMsg{Op: o, Data: data, Out: ent.OutputID[:], Size: ent.Size}
+			if err != nil {
+				m.Err, m.NotFound = err.Error(), notFound(err)
+			}
+			js, _ := json.Marshal(m)
+			r.Send("L %s", js)
+		case "getfile":
+			file, ent, err := tmpl.GetFile(ids[o.ID])
+			m := lookupMsg{Op: o, File: file, Out: ent.OutputID[:], Size: ent.Size}
+			if err != nil {
+				m.Err, m.NotFound = err.Error(), notFound(err)
+			}
+			js, _ := json.Marshal(m)
+			r.Send("L %s", js)
+		}
+	}
+	r.Finish()
+}
+
 func notFound(err error) bool {
 	return err != nil && strings.HasPrefix(err.Error(), "cache entry not found")
 }
 
 func (in *instance) checkLookup(th int, o op, data []byte, file string, ent cache.Entry, err error) {
 	if err != nil {
-		if !notFound(err) {
+		in.checkLookupR(th, o, data, file, ent, err.Error(), notFound(err))
+		return
+	}
+	in.checkLookupR(th, o, data, file, ent, "", false)
+}
+
+func (in *instance) checkLookupR(th int, o op, data []byte, file string, ent cache.Entry, errText string, nf bool) {
+	if errText != "" {
+		err := errText
+		if !nf {
 			in.fail("T%d %s failed with something other than not-found: %v", th, o, err)
 			return
 		}
@@ -159,6 +229,8 @@ func (in *instance) body() {
 	vsync.ResetNames()
 	fsched.EINTROnce = false
 	fsched.Invisible = map[string]bool{"chtimes": true}
+	pmode.Invisible = fsched.Invisible
+	pmode.Gen = 0
 	fsched.Install()
 	// a directory name never used before: nothing keyed by path leaks between executions
 	dirSeq++
@@ -209,6 +281,37 @@ func (in *instance) body() {
 			if s == ti {
 				c = shared
 			}
+		}
+		if in.sc.pmode() {
+			sched.Go(fmt.Sprintf("P%d", ti+1), func() {
+				spec, _ := json.Marshal(pchildSpec{nd, prog})
+				msg := pmode.Proxy([]string{"-pchild", string(spec)}, func(kind, rest string) {
+					var m lookupMsg
+					json.Unmarshal([]byte(rest), &m)
+					switch kind {
+					case "I":
+						var o op
+						json.Unmarshal([]byte(rest), &o)
+						in.invoked[o.ID][o.Content] = true
+					case "W":
+						if m.Err != "" {
+							in.fail("U%d %s failed: %v", ti+1, m.Op, m.Err)
+						} else {
+							in.putOK[m.Op.ID] = true
+						}
+					case "L":
+						var ent cache.Entry
+						copy(ent.OutputID[:], m.Out)
+						ent.Size = m.Size
+						in.checkLookupR(ti+1, m.Op, m.Data, m.File, ent, m.Err, m.NotFound)
+					}
+				})
+				if msg != "" {
+					in.fail("U%d: %s", ti+1, msg)
+				}
+				in.done++
+			})
+			continue
 		}
 		sched.Go(fmt.Sprintf("U%d", ti+1), func() {
 			for _, o := range prog {
@@ -300,16 +403,16 @@ type kase struct {
 }
 
 type shardResult struct {
-	Executions int64    `json:"executions"`
-	Steps      int64    `json:"steps"`
-	MaxDepth   int      `json:"max_depth"`
-	Capped     bool     `json:"capped"`
-	Outcomes   int      `json:"outcomes"`
-	Hits       int64    `json:"hits"`
-	Misses     int64    `json:"misses"`
-	Violations []kit.V  `json:"violations"`
-	Sample     []int    `json:"sample"`
-	ReplayOK   bool     `json:"replay_ok"`
+	Executions int64   `json:"executions"`
+	Steps      int64   `json:"steps"`
+	MaxDepth   int     `json:"max_depth"`
+	Capped     bool    `json:"capped"`
+	Outcomes   int     `json:"outcomes"`
+	Hits       int64   `json:"hits"`
+	Misses     int64   `json:"misses"`
+	Violations []kit.V `json:"violations"`
+	Sample     []int   `json:"sample"`
+	ReplayOK   bool    `json:"replay_ok"`
 }
 
 func runOnce(root string, sc scenario, choices []int, trace bool) (*instance, *sched.Exec) {
@@ -381,6 +484,11 @@ func scenarios(th bool) []scenario {
 		{Name: "7 empty content", Threads: [][]op{{put("A", "E")}, {put("A", "E")}, {gb("A"), gf("A")}}, Bound: b3},
 		{Name: "9 two goroutines sharing one Cache value look up different ids", Pre: [][2]string{{"A", "X"}, {"B", "Y"}}, Threads: [][]op{{gb("A"), gf("A")}, {gb("B"), gf("B")}}, SameCache: []int{0, 1}, MustHit: []string{"A", "B"}, Bound: b2},
 		{Name: "10 goroutines sharing one Cache value: writer of B, reader of A", Pre: [][2]string{{"A", "X"}}, Threads: [][]op{{put("B", "Y"), gb("B")}, {gb("A"), gf("A")}}, SameCache: []int{0, 1}, MustHit: []string{"A"}, Bound: b2},
+		{Name: "1r two writers, fresh" + pmodeTag, Threads: [][]op{{put("A", "X")}, {put("A", "X")}}, Bound: 2},
+		{Name: "2r writer and reader, fresh" + pmodeTag, Threads: [][]op{{put("A", "Y")}, {gb("A"), gf("A")}}, Bound: 2},
+		{Name: "4r identical re-store, one reader" + pmodeTag, Pre: [][2]string{{"A", "X"}}, Threads: [][]op{{put("A", "X")}, {gb("A"), gf("A")}}, MustHit: []string{"A"}, Bound: 2},
+		{Name: "5 overwrite same length" + pmodeTag, Pre: [][2]string{{"A", "X"}}, Threads: [][]op{{put("A", "Z")}, {gb("A"), gf("A")}}, Bound: 2},
+		{Name: "1 same id same content" + pmodeTag, Threads: [][]op{{put("A", "X")}, {put("A", "X")}, {gb("A"), gf("A")}}, Bound: 1},
 		{Name: "8 re-store while another id shares the output", Pre: [][2]string{{"A", "X"}, {"B", "X"}}, Threads: [][]op{{put("A", "X")}, {gb("B"), gf("B")}}, MustHit: []string{"A", "B"}, Bound: b2},
 	}
 }
@@ -390,8 +498,18 @@ type job struct {
 	prefix []int
 }
 
+var pchildFlag = flag.String("pchild", "", "internal: run one cache user as a P-mode child process")
+
 func main() {
 	r := kit.Start("C11", "model_checking")
+	if *pchildFlag != "" {
+		var spec pchildSpec
+		if err := json.Unmarshal([]byte(*pchildFlag), &spec); err != nil {
+			os.Exit(8)
+		}
+		pchildMain(spec)
+		return
+	}
 	root, err := os.MkdirTemp(os.Getenv("VERIF_SCRATCH"), "c11")
 	if err != nil {
 		kit.Harness("mkdtemp: %v", err)
@@ -416,6 +534,7 @@ func main() {
 	r.MaybeReplay()
 	scs := scenarios(r.Thorough())
 	var tot shardResult
+	var pmodeExecs int64
 	per := map[int]*shardResult{}
 	r.Sharded(len(scs), func(j int) any { return explore(r, root, scs[j], nil) }, func(j int, raw json.RawMessage) {
 		var sr shardResult
@@ -427,6 +546,9 @@ func main() {
 		}
 		per[j] = &sr
 		tot.Executions += sr.Executions
+		if scs[j].pmode() {
+			pmodeExecs += sr.Executions
+		}
 		tot.Steps += sr.Steps
 		tot.Hits += sr.Hits
 		tot.Misses += sr.Misses
@@ -454,12 +576,13 @@ func main() {
 	r.Set("transitions", tot.Steps)
 	r.Set("traces_validated_against_impl", tot.Executions)
 	r.Set("executions", tot.Executions)
+	r.Set("executions_with_one_os_process_per_user", pmodeExecs)
 	r.Set("lookup_hits", tot.Hits)
 	r.Set("lookup_misses", tot.Misses)
 	r.Set("scenarios", lines)
 	r.Set("max_decisions_in_one_execution", tot.MaxDepth)
 	r.Set("exhaustive", !tot.Capped && !r.Capped())
 	r.Set("explanation", "stateless exploration of every schedule (2 users) or every schedule within the preemption bound (3 users) at the granularity of the os calls of cache.go (stat, open, read, write, truncate, close, remove; chtimes invisible: it only touches mtimes, which C11 does not observe). states = scheduling steps visited. Both hits and misses are observed in the racing scenarios (vacuity guard)")
-	r.Assume("file operations are atomic at system-call granularity; users with their own Cache value stand for processes (the package has no shared mutable state besides read-only debug flags); P-mode replay is not built")
+	r.Assume("file operations are atomic at system-call granularity; in most scenarios users with their own Cache value stand for processes (the package has no shared mutable state besides read-only debug flags); the scenarios tagged [one process per user] explore with every user in its own OS process driven over pipes by the same scheduler")
 	r.Finish()
 }
